@@ -32,94 +32,91 @@ def io_recv(size):
     return T("io", ("recv", W("sock"), (size,), W("k")), tm.BYTES)
 
 
+class Stream:
+    """The peer's end of the socket: a byte stream of known structure delivered in scripted fragments. recv(n) hands out at most
+    n bytes, at most the next fragment limit, and b"" once the peer has closed."""
+
+    def __init__(self, data, frags=(), eof_at=None):
+        self.data, self.n, self.pos = data, tm.blen(data), 0
+        self.frags, self.eof_at = list(frags), eof_at
+        self.requests, self.unmodelled = [], []
+
+    def __call__(self, meth, recv, pos, kw):
+        if meth != "recv" or not pos or not (isinstance(pos[0], int) and not isinstance(pos[0], bool)):
+            self.unmodelled.append((meth, pos))
+            return NotImplemented
+        n = pos[0]
+        self.requests.append((self.pos, n))
+        limit = self.frags.pop(0) if self.frags else n
+        end = self.n if self.eof_at is None else self.eof_at
+        k = min(n, limit, end - self.pos)
+        if k <= 0:
+            return b""
+        chunk = tm.slc(self.data, self.pos, self.pos + k)
+        self.pos += k
+        return chunk
+
+
 def check_recv(ctx, oid="C17.1"):
+    """recv_msg against scripted peers: a stream  magic(4) command(12) length(4 LE) checksum(4) payload(L) next-message(30)  of
+    arbitrary content, delivered whole or in fragments of every awkward size, or cut off by the peer. Decided per scenario: the
+    triple returned, the bytes consumed (exactly this message), the refusals. Loop shapes, helper functions, bytearrays or
+    struct.unpack in the code under analysis do not matter."""
+    from .. import cells
     R = ctx.R
     fi = ctx.fn(P2P + "recv_msg")
-    ev = ctx.evaluator()
-    s = ev.run(fi)
-    # the accumulate loops may live in recv_msg itself or in a helper it calls (inlined: one loop instance per call)
-    loops = [lp for lp in s.loops if lp.kind == "while" and any(isinstance(t, T) and t.op == "io" and t.args[0] == "recv" for v in lp.body.values() for t in tm.subterms(v))]
-    R.check(oid, "TYPESTATE", fi, "two accumulate loops (header, payload)", len(loops) == 2, "recv_msg has %d receive loops" % len(loops))
-    R.floor(oid, len(loops), 2, "recv_accumulate_loops")
-    info = []
-    for lp in loops:
-        accv = None
-        for v, val in lp.body.items():
-            acc = T("acc", (v, lp.depth), tm.BYTES)
-            if isinstance(val, T) and val.op == "cat" and len(val.args) == 2 and tm.veq(val.args[0], acc) and isinstance(val.args[1], T) and val.args[1].op == "io":
-                accv = (v, acc, val.args[1])
-        R.check(oid, "TYPESTATE", fi, "loop appends the received chunk to its accumulator", accv is not None, "a receive loop does not do acc += chunk: %s" % {k: tm.show(x)[:80] for k, x in lp.body.items()})
-        if accv is None:
-            continue
-        v, acc, chunk = accv
-        cond = lp.cond
-        target = None
-        if isinstance(cond, T) and cond.op == "cmp" and cond.args[0] in ("ne", "lt"):
-            a, b = cond.args[1], cond.args[2]
-            if tm.veq(a, tm.length(acc)):
-                target = b
-            elif tm.veq(b, tm.length(acc)) and cond.args[0] == "ne":
-                target = a
-        R.check(oid, "TYPESTATE", fi, "loop `%s` leaves only at len(acc) == target" % v, target is not None,
-                "the receive loop condition is %s, expected len(acc) != target" % tm.show(cond)[:120], example="a stream delivered in small fragments")
-        if target is None:
-            continue
-        want_size = tm.add([target, tm.mul([-1, tm.length(acc)])])
-        m = match(io_recv(want_size), chunk)
-        R.check("C17.2", "TERM-EQ", fi, "loop `%s` requests exactly target - len(acc) bytes" % v, m is not None and tm.veq(m["sock"], P("sock")),
-                "recv is asked for %s bytes, expected target - len(received so far): bytes of the next message can be consumed" % (
-                    tm.show(chunk.args[2])[:100]), example="a fragmented header followed immediately by the next message")
-        empty_forms = [tm.lnot(tm.truth(chunk)), tm.cmp("eq", tm.length(chunk), 0), tm.cmp("eq", chunk, b""), tm.cmp("lt", tm.length(chunk), 1),
-                       tm.cmp("le", tm.length(chunk), 0)]
-        eof = [e for e in lp.exits if e.kind == "raise" and any(any(tm.veq(g, f) for f in empty_forms) for g in e.guard)]
-        R.check(oid, "TYPESTATE", fi, "loop `%s` raises when recv returns b'' (peer closed)" % v, bool(eof),
-                "an empty recv() result is not tested before looping again: recv_msg never terminates at EOF",
-                example="the peer closing the connection in the middle of a message")
-        other = [e for e in lp.exits if e not in eof]
-        R.check(oid, "TYPESTATE", fi, "loop `%s` leaves early only at EOF: no verdict is taken on a partially received buffer" % v, not other,
-                "inside the receive loop a %s is taken under `%s`: the outcome depends on how the stream happens to be fragmented" % (
-                    (other[0].kind + " " + str(other[0].exc or "")) if other else "", tm.show(tm.land(list(other[0].guard)))[:140] if other else ""),
-                example="a valid message whose first recv() returns 1 to 3 bytes")
-        info.append((v, acc, target, lp))
-    if len(info) != 2:
-        return None
-    hdr = [x for x in info if x[2] == 24]
-    R.check(oid, "TABLE", fi, "header length 24", len(hdr) == 1 and ev.const("bits.p2p", "MSG_HEADER_LEN") == 24, "header loop target is not 24 bytes")
-    if len(hdr) != 1:
-        return None
-    hv, hacc, _, hlp = hdr[0]
-    pv, pacc, ptarget, plp = [x for x in info if x is not hdr[0]][0]
-    MSG = [t for t in tm.subterms(ptarget) if isinstance(t, T) and t.op == "loopout" and t.args[0] == hv]
-    okm = bool(MSG) and tm.veq(ptarget, tm.b2i(tm.slc(MSG[0], 16, 20), "little")) and hlp.init.get(hv) == b""
-    R.check("C17.3", "TILE", fi, "payload length = header bytes 16..20 little-endian; header accumulator starts empty", okm, "payload length term: %s" % tm.show(ptarget)[:160])
-    if not okm:
-        return None
-    msg = MSG[0]
-    R.check("C17.3", "TILE", fi, "payload accumulator starts with what follows the header (nothing)", tm.veq(plp.init.get(pv), tm.slc(msg, 24, None)) or plp.init.get(pv) == b"",
-            "payload accumulator starts as %s" % tm.show(plp.init.get(pv))[:100])
-    # ---- validation on the success exit
-    rets = s.returns()
-    R.check("C17.3", "DOM", fi, "one success exit", len(rets) == 1 and isinstance(rets[0].value, (list, tuple)) and len(rets[0].value) == 3, "recv_msg has %d success exits" % len(rets))
-    if len(rets) != 1 or not isinstance(rets[0].value, (list, tuple)) or len(rets[0].value) != 3:
-        return None
-    start, command, payload = rets[0].value
-    facts = rules.all_facts(rets[0])
-    R.check("C17.4", "TILE", fi, "returned magic = header[0:4], command = header[4:16] without NUL padding",
-            tm.veq(start, tm.slc(msg, None, 4)) and tm.veq(command, T("m:rstrip", (tm.slc(msg, 4, 16), b"\x00"), tm.BYTES)),
-            "returned magic/command: %s / %s" % (tm.show(start)[:80], tm.show(command)[:80]))
+    glob = T("global", ("bits.p2p.MAGIC_START_BYTES",), tm.ANY)
+    R.check(oid, "TABLE", fi, "header length 24", ctx.evaluator().const("bits.p2p", "MSG_HEADER_LEN") == 24, "MSG_HEADER_LEN is not 24", nontrivial=False)
+    n_scen = 0
 
-    def has_eq(a, b):
-        return any(isinstance(f, T) and f.op == "cmp" and f.args[0] == "eq" and ((tm.veq(f.args[1], a) and tm.veq(f.args[2], b)) or (tm.veq(f.args[1], b) and tm.veq(f.args[2], a))) for f in facts)
-    R.check("C17.3", "DOM", fi, "success dominated by checksum == SHA256d(payload)[:4]", has_eq(tm.slc(msg, 20, 24), tm.slc(H2(payload), None, 4)),
-            "the success return of recv_msg is not dominated by the checksum comparison on every path (e.g. for an empty payload)",
-            example="a message with an empty payload and a corrupted checksum field")
-    R.check("C17.3", "DOM", fi, "success dominated by len(payload) == declared length", has_eq(tm.length(payload), ptarget),
-            "the declared length is not compared with the received payload length")
-    magic = [f for f in facts if isinstance(f, T) and f.op == "cmp" and f.args[0] == "eq" and any(tm.veq(x, start) for x in f.args[1:]) and any(
-        isinstance(x, T) and x.op == "global" and x.args[0] == "bits.p2p.MAGIC_START_BYTES" for x in f.args[1:])]
-    R.check("C17.3", "DOM", fi, "success dominated by magic == configured network magic", bool(magic), "the network magic is not checked", example="a message of another network")
-    bad_exc = [e for e in s.raises() if e.exc in ("AssertionError",)]
-    R.check("C17.3", "DOM", fi, "violations raise errors", len(s.raises()) >= 5, "recv_msg has only %d raising exits" % len(s.raises()))
+    def play(L, frags, eof_at=None, magic_ok=True, chk_ok=True, declared=None):
+        magic, command, chk = tm.sized("magic", 4), tm.sized("command", 12), tm.sized("checksum", 4)
+        payload = tm.sized("payload", L) if L else b""
+        data = tm.cat([magic, command, le(L if declared is None else declared, 4), chk, payload, tm.sized("next_message", 30)])
+        st = Stream(data, frags, eof_at)
+        ev = ctx.evaluator()
+        ev.io_fn = st
+        h4 = tm.slc(H2(payload), None, 4)
+        atoms = [(tm.cmp("eq", magic, glob), magic_ok), (tm.cmp("eq", chk, h4), chk_ok)]
+        cell = cells.Cell(atoms=atoms)
+        ev.assume_fn = cell
+        s = ev.run(fi)
+        kind, val = rules.strict_outcome(s)
+        if kind == "undecided":
+            kind, val = "a verdict that depends on", T("fact", (val,))  # a test on a partially received buffer, or on something the stream does not determine
+        want = (magic, T("m:rstrip", (command, b"\x00"), tm.BYTES), payload)
+        return kind, val, want, st
+
+    lens = (0, 5, 70) + ((300,) if ctx.thorough else ())
+    for L in lens:
+        total = 24 + L
+        frag_sets = [[], [1] * (total + 2), [3, 21, 2, 1], [23, 1, 1], [24, 1], [25], [7] * 60, [total + 30]]
+        for frags in frag_sets:
+            kind, val, want, st = play(L, frags)
+            n_scen += 1
+            ok = kind == "return" and isinstance(val, (list, tuple)) and len(val) == 3 and all(tm.veq(a, b) for a, b in zip(val, want)) and not st.unmodelled
+            R.check(oid, "TYPESTATE", fi, "payload of %d bytes delivered in fragments %s: returns (magic, command without NUL padding, payload)" % (L, (frags[:4] + ["..."]) if len(frags) > 4 else frags or "whole",), ok,
+                    "with the stream delivered in fragments %s recv_msg gives %s %s" % (frags[:6], kind, tm.show(val)[:200]), example="a %d-byte payload arriving in fragments of %s bytes" % (L, frags[:4] or "any size"))
+            over = st.pos != total or any(p + n > total for p, n in st.requests)
+            R.check("C17.2", "TERM-EQ", fi, "payload of %d bytes, fragments %s: exactly the %d bytes of this message are requested and consumed" % (L, (frags[:4] + ["..."]) if len(frags) > 4 else frags or "whole", total), not over,
+                    "recv_msg consumed %d bytes of the stream (requests %s) for a message of %d bytes: bytes of the next message are taken" % (st.pos, st.requests[:6], total),
+                    example="a fragmented header followed immediately by the next message")
+        for cut in sorted({0, 1, 10, 23, 24, total - 1}):
+            if cut >= total:
+                continue
+            for frags in ([], [1] * (total + 2)):
+                kind, val, want, st = play(L, frags, eof_at=cut)
+                n_scen += 1
+                R.check(oid, "TYPESTATE", fi, "peer closes after %d of %d bytes (%s): an error, not a message and not an endless loop" % (cut, total, "bytewise" if frags else "whole"), kind == "raise",
+                        "with the peer closing after %d bytes recv_msg gives %s %s" % (cut, kind, tm.show(val)[:120]), example="the peer closing the connection in the middle of a message")
+        for magic_ok, chk_ok in ((True, False), (False, True), (False, False)):
+            for frags in ([], [5] * 40):
+                kind, val, want, st = play(L, frags, magic_ok=magic_ok, chk_ok=chk_ok)
+                n_scen += 1
+                R.check("C17.3", "DOM", fi, "payload of %d bytes, %s: refused" % (L, " and ".join(x for x, bad in (("foreign network magic", not magic_ok), ("checksum mismatch", not chk_ok)) if bad)), kind == "raise",
+                        "a message with %s is %s" % (" and ".join(x for x, bad in (("a foreign magic", not magic_ok), ("a wrong checksum", not chk_ok)) if bad), "accepted" if kind == "return" else "not decided"),
+                        example="a message with an empty payload and a corrupted checksum field" if L == 0 else "a message of another network")
+    R.floor(oid, n_scen, 60, "recv_scenarios")
     return True
 
 
